@@ -156,7 +156,9 @@ var c18Labels = func() []string {
 	}
 	return l
 }()
-var c18MergeSizes = []int{0, 1, 9, 20, 70}
+// merge source sizes: 27, 54 and 107 leave the source MID-GROWTH (old buckets not yet evacuated:
+// growth starts at the 27th / 53rd / 105th insert and needs several more inserts to complete)
+var c18MergeSizes = []int{0, 1, 9, 27, 54, 70, 107}
 
 func c18Run(x *explore.Ctx) {
 	seed := uint64(x.Case/4) + 1
@@ -293,7 +295,7 @@ func c18Run(x *explore.Ctx) {
 func init() {
 	register("C18", &explore.Scenario{
 		ID: "C18", Name: "hash map vs reference map, every growth stage", Level: "model_checking",
-		Rule: "cases = 4 (quick) / 8 (thorough) fixed hash seeds x 4 key widths x 2 size hints; per case a default history of n inserts (n=30 quick, 72 thorough) where at every step a deviation replaces the insert by update-existing / Set-overwrite / merge of a second map (sizes 0,1,9,20,70, half overlapping keys, own seed) / insert+scribble over caller buffer / Set of a new key / filtered iteration; all histories with <= bound deviations; full Len/Get/absent-probe/Iter comparison after every step. state = (bucket count, growing, same-size, evacuation mark, overflow count, content hash); non-trivial = checks performed while the table is mid-growth or has overflow buckets, distinct by (shape, size, op)",
+		Rule: "cases = 4 (quick) / 8 (thorough) fixed hash seeds x 4 key widths x 2 size hints; per case a default history of n inserts (n=30 quick, 72 thorough) where at every step a deviation replaces the insert by update-existing / Set-overwrite / merge of a second map (sizes 0,1,9,27,54,70,107 - three of them mid-growth -, half overlapping keys, own seed) / insert+scribble over caller buffer / Set of a new key / filtered iteration; all histories with <= bound deviations; full Len/Get/absent-probe/Iter comparison after every step. state = (bucket count, growing, same-size, evacuation mark, overflow count, content hash); non-trivial = checks performed while the table is mid-growth or has overflow buckets, distinct by (shape, size, op)",
 		Cases: func(t string) int {
 			if t == "thorough" {
 				return 32
